@@ -84,7 +84,15 @@ C05_Siblings == {C05_L7, WithTag(C05_L7, "force"),
 C05_Z == SKey("z")
 C05_SibPaths == {<<>>, <<SKey("a")>>}
 
+\* the remove-this-key idiom (`key: !del`) removes a key when it exists and CREATES `key: None` when it does
+\* not (statement silent, see C04): whether a protected sibling kept the key's mapping alive then shows.
+\* Histories using the idiom are outside the sibling relation.
+RECURSIVE C05_UsesRemoveIdiom(_)
+C05_UsesRemoveIdiom(sd) == (sd.del = "T" /\ sd.k = "scalar") \/ \E i \in 1..Len(sd.ch) : C05_UsesRemoveIdiom(sd.ch[i][2])
+C05_SiblingDomain(docs) == \A j \in 1..Len(docs) : ~C05_UsesRemoveIdiom(docs[j])
+
 C05_ModelSibling(docs, accs) ==
+    C05_SiblingDomain(docs) =>
     \A j \in 1..Len(docs), S \in C05_Siblings, q \in C05_SibPaths :
         C05_CanAddAt(docs[j], q) =>
         LET ds == [i \in 1..Len(docs) |-> IF i = j THEN C05_AddSiblingAt(docs[i], q, C05_Z, S) ELSE docs[i]]
